@@ -87,6 +87,23 @@ def generate(rng, tier):
         if r > 0.82:
             ast = malform(rng, ast)
         out.append(mk_case(rng, ast, kind="malformed" if "malformed" in ast else "gen"))
+    # two fast reads in ONE worker call: the second netlist reuses a cell name of the first with other pins (more / fewer /
+    # swapped); the SECOND result is judged (state kept across calls must not leak), both orders
+    for i in range(12 if tier == "quick" else 120):
+        def with_inst(bblib, cell):
+            for _ in range(200):
+                a = U.gen_ast(rng, size="small", stress=rng.choice([0.0, 0.4]), p_const=0.2, p_bb=1.0, bblib=bblib)
+                if any(it[0] == "inst" and it[1] == cell for it in a["items"]):
+                    return a
+            return None
+        base = rng.choice([b for b in U.BBLIB if b[1] or b[2]])
+        other, how = U.vary_bb(rng, base)
+        a1, a2 = with_inst([base], base[0]), with_inst([other], base[0])
+        if a1 is None or a2 is None:
+            continue
+        c1, c2 = mk_case(rng, a1), mk_case(rng, a2)
+        out.append({"kind": "history", "how": how, "first": c1, "ast": a2, "text": c2["text"], "style": c2["style"]})
+        out.append({"kind": "history", "how": how + "-reversed", "first": c2, "ast": a1, "text": c1["text"], "style": c1["style"]})
     # character level: net_str.split(",") + strip() of the running Python on operand texts with every ASCII blank
     blank = " \t\n\r\x0b\x0c\x1c\x1d\x1e\x1f"
     for i in range(20 if tier == "quick" else 200):
@@ -156,6 +173,13 @@ def impl(case):
             obs["fast_exc"], obs["full_exc"] = f.get("exc"), l.get("exc")
         return obs
     ast = case["ast"]
+    if case["kind"] == "history":
+        # an earlier fast read in the same process, with another definition of the same cell name (result not judged here)
+        f0 = case["first"]
+        first = _read(f0["text"], f0["ast"]["name"], f0["ast"]["bbdefs"], True)
+        return {"first_ok": "ok" in first,
+                "fast": _read(case["text"], ast["name"], ast["bbdefs"], True),
+                "full": _read(case["text"], ast["name"], ast["bbdefs"], False)}
     return {"fast": _read(case["text"], ast["name"], ast["bbdefs"], True),
             "full": _read(case["text"], ast["name"], ast["bbdefs"], False)}
 
@@ -251,6 +275,8 @@ def classify(case, obs):
         return ["bundled:coq-judged" if "ast" in obs else "bundled:python-compared(support)"] + (["bundled:comments-stripped"] if obs["had_comments"] else [])
     ast = case["ast"]
     out = ["style:" + case["style"]]
+    if case["kind"] == "history":
+        out.append("history:" + case["how"])
     if case["kind"] == "malformed":
         out.append("malformed:" + ast.get("malformed", "?") + ":" + obs["fast"].get("exc", "ok") + "/" + obs["full"].get("exc", "ok"))
         return out
